@@ -275,6 +275,15 @@ func init() {
 			st.Assume(Implies(Eq(errV.Tag, TZero), And(Ge(r.Len, out.Len), Implies(Gt(out.Len, TZero), Neq(r.Arr, TZero)))))
 			k(st, res)
 		},
+		"github.com/flynn/noise.NewHandshakeState": func(e *Engine, st *State, fr *Frame, site ssa.Instruction, callee *ssa.Function, args []Value, k cont) {
+			// returns a new handshake state or an error; nothing of the caller's state is touched (assumed)
+			old := st.next
+			res := e.freshResults(st, callee.Signature, "NewHandshakeState")
+			p := res[0].(VPtr)
+			errV := res[1].(VIface)
+			st.Assume(Implies(Eq(errV.Tag, TZero), And(Neq(p.Ref, TZero), Ge(p.Ref, old))))
+			k(st, res)
+		},
 		"(*github.com/flynn/noise.HandshakeState).ReadMessage": func(e *Engine, st *State, fr *Frame, site ssa.Instruction, callee *ssa.Function, args []Value, k cont) {
 			k(st, e.freshResults(st, callee.Signature, "ReadMessage"))
 		},
@@ -327,6 +336,13 @@ func init() {
 	}
 	for _, n := range []string{"Errorln", "Errorf", "Error", "Warnln", "Warnf", "Warn", "Infoln", "Infof", "Info", "Debugln", "Debugf", "Debug"} {
 		externModels["go.brendoncarroll.net/stdctx/logctx."+n] = noop
+	}
+	// zap logging: assumed to have no effect on the verified state
+	for _, n := range []string{"Debug", "Info", "Warn", "Error", "Sync"} {
+		externModels["(*go.uber.org/zap.Logger)."+n] = noop
+	}
+	for _, n := range []string{"Any", "String", "Int", "Error", "Bool", "Uint8", "Uint32", "Uint64", "Binary", "Time", "Duration", "Stringer", "NamedError", "Int64", "Uint", "Uint16"} {
+		knownPure["go.uber.org/zap."+n] = true
 	}
 	invokeModels = map[string]invokeModel{
 		// noise.Cipher (AEAD): Encrypt appends len(plaintext)+16 bytes to out; Decrypt appends the
